@@ -77,6 +77,9 @@ pub enum AssignMode {
 pub struct GlobalVariable {
     pub name: String,
     pub initial_value: Expression,
+    /// Where it is declared, for errors found when the whole story has been read.
+    pub line: usize,
+    pub file: Option<String>,
 }
 
 /// A `LIST name = item1, (item2), ...` declaration.
